@@ -355,3 +355,266 @@ Lemma normal_form_is_fixpoint_lemma : forall d, fx_normal d ->
 Proof.
   intros d NF Hlt. unfold fx_regen. rewrite (writer_idempotent_on_normal_forms_lemma d NF Hlt). reflexivity.
 Qed.
+
+(* ------------------------------------------------------------------------------------------------
+   (2) what generation 1 reads back as is a normal form *)
+Definition fx_trimmed (d : doc) : Prop := Forall (fun kv => fx_owned (fst kv) = false) (d_trailer d).
+
+Lemma fx_sub_keys : forall (E : list N * obj -> list (list N * obj)),
+  (forall kv, E kv = [] \/ exists v, E kv = [(fst kv, v)]) ->
+  forall l, (forall k, In k (map fst (flat_map E l)) -> In k (map fst l))
+            /\ (NoDup (map fst l) -> NoDup (map fst (flat_map E l))).
+Proof.
+  intros E HE. induction l as [|kv l [IH1 IH2]]; [split; [intros k H; exact H | intros H; exact H]|].
+  cbn [flat_map map]. rewrite map_app. destruct (HE kv) as [H|[v H]]; rewrite H; cbn [map app fst].
+  - split; [intros k Hk; right; apply IH1; exact Hk|].
+    intros Hnd. inversion Hnd; subst. apply IH2. assumption.
+  - split; [intros k [Hk|Hk]; [left; exact Hk | right; apply IH1; exact Hk]|].
+    intros Hnd. inversion Hnd as [|? ? Hna Hnd']; subst. constructor; [|apply IH2; exact Hnd'].
+    intros Hin. apply Hna. apply IH1. exact Hin.
+Qed.
+
+Lemma fx_nodup_snoc : forall (A : Type) (l : list A) x, NoDup l -> ~ In x l -> NoDup (l ++ [x]).
+Proof.
+  intros A l x Hnd Hx. induction Hnd as [|a l Ha Hnd IH]; [repeat constructor; intros []|].
+  cbn [app]. constructor.
+  - intros Hin. apply in_app_or in Hin. destruct Hin as [Hin|[Hin|[]]]; [exact (Ha Hin)|].
+    subst a. apply Hx. left. reflexivity.
+  - apply IH. intros Hin. apply Hx. right. exact Hin.
+Qed.
+
+Definition fx_rn_entry (objs : list (N * indirect)) (ren : N -> N) (kv : list N * obj) : list (list N * obj) :=
+  if is_null_val objs (snd kv) then [] else [(fst kv, fx_rn objs ren (snd kv))].
+Lemma fx_rn_dict : forall objs ren dd, fx_rn objs ren (ODict dd) = ODict (flat_map (fx_rn_entry objs ren) dd).
+Proof. reflexivity. Qed.
+Lemma fx_rn_entry_shape : forall objs ren kv, fx_rn_entry objs ren kv = [] \/ exists v, fx_rn_entry objs ren kv = [(fst kv, v)].
+Proof. intros objs ren kv. unfold fx_rn_entry. destruct (is_null_val objs (snd kv)); [left; reflexivity | right; eexists; reflexivity]. Qed.
+Lemma fx_norm_entry_shape : forall d kv, fx_norm_entry d kv = [] \/ exists v, fx_norm_entry d kv = [(fst kv, v)].
+Proof.
+  intros d kv. unfold fx_norm_entry.
+  destruct (is_null_val (d_objects d) (snd kv) || fx_owned (fst kv)); [left; reflexivity | right; eexists; reflexivity].
+Qed.
+
+(* well-formedness of values is kept by the renaming and by dropping /Length *)
+Lemma fx_wf_rn : forall objs ren o, wf_wobj o -> wf_wobj (fx_rn objs ren o).
+Proof.
+  intros objs ren.
+  apply (obj_ind' (fun o => wf_wobj o -> wf_wobj (fx_rn objs ren o))); try (intros; assumption); try (intros; exact I).
+  - intros l IH Hw. cbn [fx_rn]. apply wf_arr. apply wf_arr in Hw.
+    induction IH as [|x l Hx _ IHl]; [constructor|]. inversion Hw; subst. cbn [map]. constructor; [apply Hx; assumption | apply IHl; assumption].
+  - intros dd IH Hw. rewrite fx_rn_dict. apply wf_dict. apply wf_dict in Hw.
+    induction IH as [|kv dd Hkv _ IHd]; [constructor|]. inversion Hw as [|? ? [Hk Hv] Hw']; subst.
+    cbn [flat_map]. apply Forall_app. split; [|apply IHd; exact Hw'].
+    unfold fx_rn_entry. destruct (is_null_val objs (snd kv)); constructor; [|constructor].
+    cbn [fst snd]. split; [exact Hk | apply Hkv; exact Hv].
+Qed.
+
+Lemma fx_wf_drop_length : forall o, wf_wobj o -> wf_wobj (drop_length o).
+Proof.
+  intros o Hw. destruct o; try exact Hw. cbn [drop_length]. apply wf_dict. apply wf_dict in Hw.
+  rewrite Forall_forall in *. intros kv Hin. apply filter_In in Hin. apply Hw. exact (proj1 Hin).
+Qed.
+
+Lemma fx_wf_len_key : wf_key k_Length.
+Proof. split; [intros H; repeat (destruct H as [H|H]; [discriminate H|]); destruct H | repeat constructor]. Qed.
+
+Section Norm.
+  Variable d : doc.
+  Hypothesis W : wf_doc d.
+  Hypothesis Htrim : fx_trimmed d.
+
+  Let objs := d_objects d.
+  Let rho := fx_ren d.
+  Let g := graph_of d.
+  Let roots := roots_of d.
+  Let Wd := written g roots.
+  Let objs1 := map (fx_norm_obj d) Wd.
+
+  Let Hc : closed g roots := wfd_closed d W.
+
+  Lemma fxs_written_reach : forall x, In x Wd <-> reach g roots x.
+  Proof. exact (proj2 (queue_complete_lemma g roots Hc)). Qed.
+
+  Lemma fxs_inj : forall a b, In a Wd -> In b Wd -> rho a = rho b -> a = b.
+  Proof.
+    intros a b Ha Hb H. apply (f_inj_reach g roots Hc); [apply fxs_written_reach; exact Ha | apply fxs_written_reach; exact Hb | exact H].
+  Qed.
+
+  Lemma fxs_find1_gen : forall l id, (forall a, In a l -> In a Wd) -> In id l ->
+    find_obj (map (fx_norm_obj d) l) (rho id) = Some (snd (fx_norm_obj d id)).
+  Proof.
+    induction l as [|a l IH]; intros id Hl Hin; [destruct Hin|].
+    cbn [map find_obj]. unfold fx_norm_obj at 1. cbn [fst]. fold rho.
+    destruct (rho a =? rho id) eqn:E.
+    - apply N.eqb_eq in E. apply fxs_inj in E; [subst a; reflexivity | apply Hl; left; reflexivity | apply Hl; exact Hin].
+    - destruct Hin as [Hin|Hin]; [subst a; rewrite N.eqb_refl in E; discriminate E|].
+      apply IH; [intros x Hx; apply Hl; right; exact Hx | exact Hin].
+  Qed.
+  Lemma fxs_find1 : forall id, In id Wd -> find_obj objs1 (rho id) = Some (snd (fx_norm_obj d id)).
+  Proof. intros id Hin. apply fxs_find1_gen; [intros a Ha; exact Ha | exact Hin]. Qed.
+
+  (* a non-null value stays non-null *)
+  Lemma fxs_nonnull1 : forall v, is_null_val objs v = false -> (forall id, v = ORef id -> In id Wd) ->
+    is_null_val objs1 (fx_rn objs rho v) = false.
+  Proof.
+    intros v Hn Hv. destruct v; try reflexivity; try discriminate Hn.
+    cbn [fx_rn is_null_val]. rewrite (fxs_find1 id (Hv id eq_refl)).
+    cbn [is_null_val] in Hn. unfold fx_norm_obj. cbn [snd]. fold objs.
+    destruct (find_obj objs id) as [i|]; [|discriminate Hn]. cbn [i_val i_stream].
+    unfold fx_norm_val. destruct (i_stream i); [destruct (fx_rn _ _ _); reflexivity|].
+    fold objs. fold rho. destruct (i_val i); try reflexivity. discriminate Hn.
+  Qed.
+
+  (* references and the absence of null entries after the renaming *)
+  Lemma fxs_refs1 : forall o, (forall id, In id (refs_of objs o) -> In id Wd) ->
+    refs_of objs1 (fx_rn objs rho o) = map rho (refs_of objs o) /\ fx_nonull objs1 (fx_rn objs rho o) = true.
+  Proof.
+    apply (obj_ind' (fun o => (forall id, In id (refs_of objs o) -> In id Wd) ->
+      refs_of objs1 (fx_rn objs rho o) = map rho (refs_of objs o) /\ fx_nonull objs1 (fx_rn objs rho o) = true));
+      try (intros; split; reflexivity).
+    - intros l IH Hr. cbn [fx_rn refs_of fx_nonull]. cbn [refs_of] in Hr.
+      induction IH as [|x l Hx _ IHl]; [split; reflexivity|].
+      cbn [flat_map] in Hr. cbn [map flat_map forallb]. rewrite map_app.
+      destruct Hx as [Hx1 Hx2]; [intros id Hid; apply Hr; apply in_or_app; left; exact Hid|].
+      destruct IHl as [I1 I2]; [intros id Hid; apply Hr; apply in_or_app; right; exact Hid|].
+      rewrite Hx1, Hx2, I1, I2. split; reflexivity.
+    - intros dd IH Hr. rewrite fx_rn_dict. cbn [refs_of fx_nonull]. cbn [refs_of] in Hr.
+      induction IH as [|kv dd Hkv _ IHd]; [split; reflexivity|].
+      cbn [flat_map] in Hr. cbn [flat_map]. rewrite flat_map_app, forallb_app, map_app.
+      destruct IHd as [I1 I2]; [intros id Hid; apply Hr; apply in_or_app; right; exact Hid|].
+      rewrite I1, I2. unfold fx_rn_entry.
+      destruct (is_null_val objs (snd kv)) eqn:En; [split; reflexivity|].
+      destruct Hkv as [K1 K2]; [intros id Hid; apply Hr; apply in_or_app; left; exact Hid|].
+      cbn [flat_map forallb fst snd].
+      rewrite fxs_nonnull1; [rewrite K1, K2, app_nil_r; split; reflexivity | exact En |].
+      intros id Hid. apply Hr. apply in_or_app. left. rewrite Hid. left. reflexivity.
+  Qed.
+
+  Lemma fxs_children_in : forall id y, In id Wd -> In y (children g id) -> In y Wd.
+  Proof.
+    intros id y Hid Hy. apply fxs_written_reach. apply (reach_step g roots id); [apply fxs_written_reach; exact Hid | exact Hy].
+  Qed.
+
+  (* the dictionary a written stream gets: renamed entries without /Length, then the printed /Length *)
+  Definition fxs_l (dd : list (list N * obj)) : list (list N * obj) :=
+    flat_map (fx_rn_entry objs rho) (filter (fun kv => negb (beqb (fst kv) k_Length)) dd).
+  Lemma fxs_stream_val : forall i data dd, i_stream i = Some data -> i_val i = ODict dd ->
+    fx_rn objs rho (drop_length (i_val i)) = ODict (fxs_l dd)
+    /\ fx_norm_val d i = ODict (fxs_l dd ++ [fx_len_entry data])
+    /\ Forall (fun kv => beqb (fst kv) k_Length = false) (fxs_l dd)
+    /\ drop_length (fx_norm_val d i) = ODict (fxs_l dd).
+  Proof.
+    intros i data dd Hs Hv. rewrite Hv. cbn [drop_length]. rewrite fx_rn_dict. fold (fxs_l dd).
+    split; [reflexivity|].
+    assert (Hl : Forall (fun kv => beqb (fst kv) k_Length = false) (fxs_l dd)).
+    { rewrite Forall_forall. intros kv' Hin. apply in_flat_map in Hin. destruct Hin as [kv [Hkv Hin]].
+      apply filter_In in Hkv. destruct Hkv as [_ Hkv]. apply negb_true_iff in Hkv.
+      unfold fx_rn_entry in Hin. destruct (is_null_val objs (snd kv)); [destruct Hin|].
+      destruct Hin as [<-|[]]. exact Hkv. }
+    assert (Hnv : fx_norm_val d i = ODict (fxs_l dd ++ [fx_len_entry data])).
+    { unfold fx_norm_val. rewrite Hs, Hv. cbn [drop_length]. fold objs. fold rho. rewrite fx_rn_dict. reflexivity. }
+    split; [exact Hnv|]. split; [exact Hl|]. rewrite Hnv. apply fx_drop_length_shape; [exact Hl | reflexivity].
+  Qed.
+
+  Lemma fxs_find_in : forall (l : list (N * indirect)) id i, find_obj l id = Some i -> In (id, i) l.
+  Proof.
+    induction l as [|[k v] l IH]; intros id i H; [discriminate H|]. cbn [find_obj] in H.
+    destruct (k =? id) eqn:E.
+    - apply N.eqb_eq in E. subst k. injection H as <-. left. reflexivity.
+    - right. apply IH. exact H.
+  Qed.
+
+  (* the reference graph of what is read back is the renamed graph of Sys/EnvModel.v *)
+  Lemma fxs_graph : graph_of (fx_norm d) = renamed_graph g roots.
+  Proof.
+    unfold graph_of, renamed_graph. cbn [fx_norm d_objects]. fold g roots Wd objs1. unfold objs1 at 2. rewrite map_map.
+    apply map_ext_in. intros id Hin.
+    destruct (written_find_obj d id Hc Hin) as [i Hi].
+    unfold fx_norm_obj. cbn [fst snd]. fold objs in Hi |- *. rewrite Hi. cbn [i_val i_stream].
+    change (fx_ren d id) with (num_or0 g roots id). f_equal.
+    change (num_or0 g roots) with rho.
+    destruct (i_stream i) as [data|] eqn:Es.
+    - destruct (wfd_streams d W id i (fxs_find_in _ _ _ Hi)) as [dd Hv]; [rewrite Es; discriminate|].
+      destruct (fxs_stream_val i data dd Es Hv) as [H1 [_ [_ H4]]].
+      rewrite H4, <- H1.
+      assert (Hch : children g id = refs_of objs (drop_length (i_val i)))
+        by (unfold g; apply (children_graph_of_stream d id i data Hi Es)).
+      assert (Hr : forall y, In y (refs_of objs (drop_length (i_val i))) -> In y Wd)
+        by (intros y Hy; apply (fxs_children_in id y Hin); rewrite Hch; exact Hy).
+      rewrite (proj1 (fxs_refs1 _ Hr)), Hch. reflexivity.
+    - unfold fx_norm_val. rewrite Es. fold objs rho.
+      assert (Hch : children g id = refs_of objs (i_val i))
+        by (unfold g; apply (children_graph_of d id i Hi Es)).
+      assert (Hr : forall y, In y (refs_of objs (i_val i)) -> In y Wd)
+        by (intros y Hy; apply (fxs_children_in id y Hin); rewrite Hch; exact Hy).
+      rewrite (proj1 (fxs_refs1 _ Hr)), Hch. reflexivity.
+  Qed.
+
+  Let size1 : obj := OInt (Z.of_N (N.of_nat (length Wd) + 1)).
+
+  Lemma fxs_find_norm : forall K v, fx_owned K = false ->
+    forall l, find (fun kv => beqb (fst kv) K) l = Some (K, v) -> is_null_val objs v = false ->
+    find (fun kv => beqb (fst kv) K) (flat_map (fx_norm_entry d) l)
+    = Some (K, if beqb K k_Size then size1 else fx_rn objs rho v).
+  Proof.
+    intros K v Ho. induction l as [|kv l IH]; intros Hf Hn; [discriminate Hf|].
+    cbn [find] in Hf. cbn [flat_map]. destruct (beqb (fst kv) K) eqn:E.
+    - injection Hf as ->. unfold fx_norm_entry. cbn [fst snd]. fold objs. rewrite Hn, Ho. cbn [orb app find fst].
+      cbn [fst] in E. rewrite E. reflexivity.
+    - destruct (fx_norm_entry_shape d kv) as [H0|[v0 H0]]; rewrite H0; cbn [app find fst]; [|rewrite E]; apply IH; assumption.
+  Qed.
+
+  Lemma fxs_trailer_refs_written : forall kv x, In kv (d_trailer d) -> is_null_val objs (snd kv) = false ->
+    In x (refs_of objs (snd kv)) -> In x Wd.
+  Proof.
+    intros kv x Hkv En Hx. destruct (wfd_root d W) as [r [ir [Hroot _]]]. destruct (wfd_keys_nodup d W) as [Hnd _].
+    apply (roots_written d x Hc). exact (fx_trailer_ref_root d r kv x Hnd Hroot Hkv En Hx).
+  Qed.
+
+  Lemma fxs_roots_tail : forall l, (forall kv, In kv l -> In kv (d_trailer d)) ->
+    flat_map (fun kv => if beqb (fst kv) k_Root || is_null_val objs1 (snd kv) then [] else refs_of objs1 (snd kv))
+             (flat_map (fx_norm_entry d) l)
+    = map rho (flat_map (fun kv => if beqb (fst kv) k_Root || is_null_val objs (snd kv) then [] else refs_of objs (snd kv)) l).
+  Proof.
+    induction l as [|kv l IH]; intros Hl; [reflexivity|].
+    cbn [flat_map]. rewrite flat_map_app, map_app. f_equal; [|apply IH; intros x Hx; apply Hl; right; exact Hx].
+    assert (Hkv : In kv (d_trailer d)) by (apply Hl; left; reflexivity).
+    unfold fx_norm_entry. fold objs. pose proof Htrim as Ht. unfold fx_trimmed in Ht. rewrite Forall_forall in Ht.
+    rewrite (Ht kv Hkv), orb_false_r.
+    destruct (is_null_val objs (snd kv)) eqn:En; [rewrite orb_true_r; reflexivity|].
+    cbn [flat_map fst snd]. rewrite app_nil_r, orb_false_r.
+    destruct (beqb (fst kv) k_Root) eqn:Er; [reflexivity|]. cbn [orb].
+    destruct (beqb (fst kv) k_Size) eqn:Es.
+    - cbn [is_null_val refs_of]. destruct (wfd_size d W) as [zs Hsize]. destruct (wfd_keys_nodup d W) as [Hnd _].
+      pose proof (find_some _ _ Hsize) as [Hs _]. apply beqb_eq in Es. destruct kv as [k v]. cbn [fst snd] in *. subst k.
+      rewrite (nodup_key_unique _ _ _ _ _ _ Hnd Hkv Hs). reflexivity.
+    - fold rho.
+      assert (Hr : forall y, In y (refs_of objs (snd kv)) -> In y Wd) by (intros y Hy; exact (fxs_trailer_refs_written kv y Hkv En Hy)).
+      rewrite fxs_nonnull1; [exact (proj1 (fxs_refs1 _ Hr)) | exact En |].
+      intros id Hid. apply Hr. rewrite Hid. left. reflexivity.
+  Qed.
+
+  Lemma fxs_roots : roots_of (fx_norm d) = renamed_roots g roots.
+  Proof.
+    destruct (wfd_root d W) as [r [ir [Hroot [Hfr Hnn]]]].
+    unfold roots_of at 1. cbn [fx_norm d_trailer d_objects]. fold g roots Wd objs1.
+    rewrite (fxs_find_norm k_Root (ORef r) eq_refl _ Hroot Hnn).
+    change (beqb k_Root k_Size) with false. cbn iota.
+    rewrite (fxs_roots_tail (d_trailer d) (fun kv H => H)).
+    assert (Hr0 : roots = [r] ++ flat_map (fun kv => if beqb (fst kv) k_Root || is_null_val objs (snd kv) then []
+                                                     else refs_of objs (snd kv)) (d_trailer d))
+      by (unfold roots, roots_of; rewrite Hroot; reflexivity).
+    unfold renamed_roots. change (num_or0 g roots) with rho. rewrite Hr0, map_app. reflexivity.
+  Qed.
+
+  Lemma fxs_closed1 : doc_closed (fx_norm d).
+  Proof. unfold doc_closed. rewrite fxs_graph, fxs_roots. apply (closed_renamed g roots Hc). Qed.
+
+  Lemma fxs_written1 : written (graph_of (fx_norm d)) (roots_of (fx_norm d)) = fx_ids_1n (length Wd).
+  Proof. rewrite fxs_graph, fxs_roots. exact (proj1 (renumber_fixpoint_lemma g roots Hc)). Qed.
+
+  Lemma fxs_keys1 : map fst objs1 = fx_ids_1n (length Wd).
+  Proof.
+    unfold objs1. rewrite map_map. cbn [fx_norm_obj fst]. exact (map_f_written g roots Hc).
+  Qed.
+End Norm.
